@@ -30,6 +30,11 @@ type LoopSpec struct {
 	Ordinal    int
 	Invariants []*Clause
 	Decreases  Expr
+	// FreshWrites ("fresh_writes" line in the loop block): every write of the loop body to a reference-indexed heap
+	// component goes to an object allocated during the call. Each such write becomes an obligation
+	// (loopN.fresh_write:<heap key>); in exchange the objects that existed at function entry keep their values across the
+	// loop (the standard inductive argument: "no pre-existing object was written so far" is itself a loop invariant).
+	FreshWrites bool
 	// loop frame ("modifies" inside a loop block): only these targets are havocked at the loop header; every back edge
 	// carries the obligation that nothing else (allocated before the iteration started) was changed by the body
 	HasModifies bool
@@ -165,7 +170,7 @@ var closureNameRe = regexp.MustCompile(`^(.+)__(\d+)$`)
 var labelRe = regexp.MustCompile(`^\[([A-Za-z0-9_.,\- ]+)\]`)
 
 var clauseKw = map[string]bool{"requires": true, "ensures": true, "modifies": true, "panics": true, "pure": true,
-	"assumed": true, "invariant": true, "decreases": true, "noinline": true, "trusted": true, "at": true, "deterministic": true}
+	"assumed": true, "invariant": true, "decreases": true, "noinline": true, "trusted": true, "at": true, "deterministic": true, "fresh_writes": true}
 
 // parseSpecFile reads //@ lines of one file. pkgPath is the package whose scope resolves unqualified Go names
 // (for prelude files it is set by `//@ package "path"`).
@@ -325,6 +330,9 @@ func (db *SpecDB) parseSpecFile(file string, pkgPath string) {
 					continue
 				}
 				db.GhostVars[name] = &GhostVar{name, te, pkgPath, copyMap(imports)}
+				if te.Kind == "map" && te.K != nil && (te.K.Kind == "ptr" || te.K.Name == "ref") {
+					refKeyedGhost["G|"+name] = true
+				}
 			case "func", "macro":
 				g, err := parseGhostFunc(r2)
 				if err != nil {
@@ -479,6 +487,12 @@ func (db *SpecDB) parseSpecFile(file string, pkgPath string) {
 				cur.Assumed = true
 			case "noinline":
 				cur.NoInline = true
+			case "fresh_writes":
+				if curLoop == nil {
+					errf(en.ln, "fresh_writes outside a loop block")
+					continue
+				}
+				curLoop.FreshWrites = true
 			case "modifies":
 				if curLoop != nil {
 					curLoop.HasModifies = true
